@@ -72,6 +72,10 @@ def cases(tier, seed):
         for k in range(1, S + 1):
             out.append({"key": f"submult/{m}x{k}x{n}", "grp": "sub", "m": m, "k": k, "n": n})
     out.append({"key": "ord_table", "grp": "ord"})
+    for (m, n) in ((24, 28), (30, 26), (40, 36), (2, 33), (33, 2)):
+        out.append({"key": f"large/{m}x{n}", "grp": "large", "m": m, "n": n})
+    for m, n in ((2, 2), (2, 3), (3, 2), (3, 3)):
+        out.append({"key": f"compmask/{m}x{n}", "grp": "compmask", "m": m, "n": n})
     return out
 
 
@@ -225,17 +229,61 @@ def run_case(case, seed):
                     for key in ("fro", "1", "inf", "2"):
                         if not nabc[key] <= na[key] * nb[key] * ncc[key] * (1 + 1e-12) + 1e-300:
                             fails.append(fail("submultiplicative3", f"ord={key}", ord=key, grp="sub"))
+    elif grp in ("large", "compmask"):
+        m, n = case["m"], case["n"]
+        mats_ = []
+        if grp == "large":
+            # slowly decaying spectrum: every singular value matters for the 2-norm only through the largest one
+            for flat in (False, True):
+                B_ = fill.quat(m, n, bits=4, lo=-40, hi=40)
+                if flat:
+                    Uq_, Vq_ = G.unitary("hh", m, fill, 1), G.unitary("hh", n, fill, 2)
+                    B_ = G.with_spectrum(Uq_, [1.0 - 0.01 * t for t in range(min(m, n))], Vq_)
+                mats_.append(B_)
+        else:
+            for mask in G.COMPONENT_MASKS:
+                B_ = fill.quat_int(m, n, -4, 4).astype(float)
+                B_[B_ == 0] = 3.0
+                mats_.append(G.apply_component_mask(B_, mask))
+        for A in mats_:
+            Aq = G.to_quat(A)
+            sv = O.svals(A)
+            exp2, expF = float(sv[0]), O.fro(A)
+            mod = O.qabs(A)
+            exp1, expinf = float(mod.sum(axis=0).max()), float(mod.sum(axis=1).max())
+            nontriv += 1
+            for nm, f, exp, tol in (
+                ("matrix_norm(2)", lambda: u.matrix_norm(Aq, 2), exp2, O.budget(expF, dims=4 * max(m, n))),
+                ("spectral_norm_2", lambda: u.spectral_norm_2(Aq), exp2, O.budget(expF, dims=4 * max(m, n))),
+                ("matrix_norm('fro')", lambda: u.matrix_norm(Aq, "fro"), expF, 64 * O.U * 4 * m * n * expF),
+                ("matrix_norm(1)", lambda: u.matrix_norm(Aq, 1), exp1, 64 * O.U * m * exp1),
+                ("matrix_norm(inf)", lambda: u.matrix_norm(Aq, np.inf), expinf, 64 * O.U * n * expinf),
+            ):
+                ok, v = call(f)
+                evals += 1
+                if not ok:
+                    fails.append(fail("norm_raised", f"{nm}: {v}", fn=nm, grp=grp))
+                elif not abs(float(v) - exp) <= tol:
+                    fails.append(fail("norm!=definition", f"{nm} = {float(v)!r}, definition gives {exp!r} ({grp} {m}x{n})", fn=nm, grp=grp))
     else:
         A = mat(np.array([[5, 6, 1], [2, 9, 3]])).astype(float)  # 2x3, non-symmetric moduli
         Aq = G.to_quat(A)
         nontriv = 1
-        good = {"None": None, "'fro'": "fro", "'F'": "F", "1": 1, "2": 2, "np.inf": np.inf, "'inf'": "inf", "1.0": 1.0, "2.0": 2.0, "float('inf')": float("inf")}
+        good = {"None": None, "'fro'": "fro", "'F'": "F", "1": 1, "2": 2, "np.inf": np.inf, "'inf'": "inf", "1.0": 1.0, "2.0": 2.0, "float('inf')": float("inf"),
+                "np.int64(1)": np.int64(1), "np.int32(2)": np.int32(2), "np.float64(2)": np.float64(2.0), "np.float32(inf)": np.float32(np.inf), "np.int8(1)": np.int8(1)}
+        modA = O.qabs(A)
+        expect = {"fro": O.fro(A), 1: float(modA.sum(axis=0).max()), 2: float(O.svals(A)[0]), "inf": float(modA.sum(axis=1).max())}
+        kind_of = {"None": "fro", "'fro'": "fro", "'F'": "fro", "1": 1, "2": 2, "np.inf": "inf", "'inf'": "inf", "1.0": 1, "2.0": 2, "float('inf')": "inf",
+                   "np.int64(1)": 1, "np.int32(2)": 2, "np.float64(2)": 2, "np.float32(inf)": "inf", "np.int8(1)": 1}
         for nm, o in good.items():
             ok, v = call(u.matrix_norm, Aq, o)
             evals += 1
             if not ok:
                 fails.append(fail("valid_ord_rejected", f"ord={nm}: {v}", ord=nm, grp="ord"))
-        bad = {"'nuc'": "nuc", "0": 0, "-1": -1, "3": 3, "'Fro'": "Fro", "'2'": "2", "-np.inf": -np.inf, "'f'": "f", "'1'": "1", "-2": -2, "1.5": 1.5}
+            elif abs(float(v) - expect[kind_of[nm]]) > 1e-12 * expect[kind_of[nm]]:
+                fails.append(fail("ord_spelling_selects_wrong_norm", f"ord={nm}: {float(v)!r}, the {kind_of[nm]}-norm is {expect[kind_of[nm]]!r}", ord=nm, grp="ord"))
+        bad = {"'nuc'": "nuc", "0": 0, "-1": -1, "3": 3, "'Fro'": "Fro", "'2'": "2", "-np.inf": -np.inf, "'f'": "f", "'1'": "1", "-2": -2, "1.5": 1.5,
+               "[1]": [1], "(1, 2)": (1, 2), "b'fro'": b"fro", "{}": {}, "np.int64(3)": np.int64(3), "'frobenius'": "frobenius", "'Inf'": "Inf"}
         for nm, o in bad.items():
             ok, v = call(u.matrix_norm, Aq, o)
             evals += 1
